@@ -120,3 +120,10 @@ pub fn long_multibyte_texts() -> Vec<String> {
     }
     v
 }
+
+/// all strings up to length n over every printable ASCII character plus tab, CR, LF
+pub fn all_ascii(n: usize) -> crate::engine::space::Space<String> {
+    let syms: Vec<&'static str> = (0x20u8..0x7f).map(|b| (b as char).to_string()).chain(["\n", "\t", "\r"].iter().map(|s| s.to_string())).map(|s| &*Box::leak(s.into_boxed_str())).collect();
+    let leaked: &'static [&'static str] = Box::leak(syms.into_boxed_slice());
+    crate::engine::space::strings(leaked, 0, n)
+}
